@@ -479,6 +479,74 @@ func propC08(c *Check) {
 		}
 	}
 	c.Floor("R5", "errgroup closures", nClosures, 2)
+
+	// joined before use: from every Group.Go no path reaches a success exit of the starter, or a read of a
+	// captured variable the closure writes, without passing the group's Wait
+	nJoin := 0
+	for _, f := range p.ProdFuncs {
+		var gos, waits []ssa.Instruction
+		written := map[ssa.Value]bool{}
+		for _, ci := range callsIn(f) {
+			cf := calleeFunc(ci.Common())
+			if cf == nil {
+				continue
+			}
+			switch cf.FullName() {
+			case "(*golang.org/x/sync/errgroup.Group).Wait":
+				if _, isDefer := ci.(*ssa.Defer); !isDefer {
+					waits = append(waits, ci)
+				}
+			case "(*golang.org/x/sync/errgroup.Group).Go":
+				gos = append(gos, ci)
+				args := ci.Common().Args
+				if mc, ok := args[len(args)-1].(*ssa.MakeClosure); ok {
+					cfn := mc.Fn.(*ssa.Function)
+					for i, fv := range cfn.FreeVars {
+						for _, ref := range *fv.Referrers() {
+							if st, ok := ref.(*ssa.Store); ok && st.Addr == fv {
+								written[mc.Bindings[i]] = true
+							}
+						}
+					}
+				}
+			}
+		}
+		if len(gos) == 0 {
+			continue
+		}
+		c.touch(f)
+		isWait := instrSet(waits)
+		success := successTargets(f)
+		target := func(in ssa.Instruction) bool {
+			if success(in) {
+				return true
+			}
+			if u, ok := in.(*ssa.UnOp); ok && u.Op == token.MUL && written[u.X] {
+				return true
+			}
+			return false
+		}
+		for _, g := range gos {
+			nJoin++
+			construct := "joined-before-use @ " + FuncKey(f) + " " + fmt.Sprint(indexOfInstr(gos, g))
+			ps := &PathSearch{Fn: f, From: g, AvoidInstr: isWait, IsTarget: target}
+			if t, path := ps.Find(); t != nil {
+				c.Violated("R5", construct, p.InstrPos(t), "a path from Group.Go reaches a success exit or a read of a variable the goroutine writes without passing Group.Wait (the goroutine may still be running)", p.describePath(path)...)
+			} else {
+				c.Held("R5", construct, p.InstrPos(g), "Group.Wait lies on every path from this Go to a success exit and to every read of the variables the goroutine writes")
+			}
+		}
+	}
+	c.Floor("R5", "errgroup starts joined", nJoin, 4)
+}
+
+func indexOfInstr(list []ssa.Instruction, x ssa.Instruction) int {
+	for i, y := range list {
+		if y == x {
+			return i
+		}
+	}
+	return -1
 }
 
 func keys(m map[string]string) []string {
